@@ -48,6 +48,7 @@ func init() {
 func runC01(w *World, r *Report, tier string) {
 	kindRuleTexts(r)
 	unresolvedSeeds(w, r)
+	rulePointFields(w, r)
 	ruleSignedField(w, r)
 	entries := entryFuncs(w, r, "shape.GetExtendedSpatialIdsOnPoints", "shape.GetSpatialIdsOnPoints")
 	ruleChunks(w, r, closureOf(w, entries))
@@ -72,6 +73,7 @@ func runC01(w *World, r *Report, tier string) {
 func runC03(w *World, r *Report, tier string) {
 	kindRuleTexts(r)
 	unresolvedSeeds(w, r)
+	ruleDelegateOnce(w, r, "integrate.ChangeSpatialIdsZoom", "integrate.ChangeExtendedSpatialIdsZoom")
 	entries := entryFuncs(w, r, "integrate.ChangeExtendedSpatialIdsZoom", "integrate.ChangeSpatialIdsZoom",
 		"integrate.HorizontalZoom", "integrate.HorizontalZoomMinMax", "integrate.VerticalZoom")
 	ruleChunks(w, r, closureOf(w, entries))
@@ -104,6 +106,7 @@ func runC03(w *World, r *Report, tier string) {
 func runC04(w *World, r *Report, tier string) {
 	kindRuleTexts(r)
 	unresolvedSeeds(w, r)
+	ruleDelegateOnce(w, r, "integrate.MergeSpatialIds", "integrate.MergeExtendedSpatialIds")
 	entries := entryFuncs(w, r, "integrate.MergeExtendedSpatialIds", "integrate.MergeSpatialIds")
 	ruleChunks(w, r, closureOf(w, entries))
 	cl := closureOf(w, entries)
